@@ -357,7 +357,7 @@ def gen_streams(tier):
 
 PROPS['C09'] = dict(
     family='line', tags={'G': 'gen', 'J': 'gen', 'V': 'gen'}, needs_scrut_bin=True,
-    theorems=['C09_line_round_trip', 'C09_line_not_exit_code', 'C09_generated_expectations_pass', 'C09_cram_test_reads_back', 'C09_markdown_test_reads_back', 'C09_cram_tests_read_back', 'C09_markdown_tests_read_back', 'C09_guarded_cram_document_same', 'C09_guarded_markdown_document_same', 'C09_guarded_line_reads_back', 'C09_regen_described', 'C09_regen_accepts_when_deterministic'],
+    theorems=['C09_line_round_trip', 'C09_line_not_exit_code', 'C09_generated_expectations_pass', 'C09_cram_test_reads_back', 'C09_markdown_test_reads_back', 'C09_cram_tests_read_back', 'C09_markdown_tests_read_back', 'C09_guarded_cram_document_same', 'C09_guarded_markdown_document_same', 'C09_guarded_line_reads_back', 'C09_no_eol_guard_keeps_ending', 'C09_regen_described', 'C09_regen_accepts_when_deterministic'],
     streams=gen_streams,
     spec_kinds=['SPEC:C09', 'SPEC:C18'], corr_kinds=['DIFF:generated-lines', 'DIFF:generated-document'],
     case_format='G <m Markdown|c Cram> <a ascii|u unicode escaper> <0 create | 1 update with kept plain expectations | 2 update with quantified expectations> <hex shell expression> <exit code> <hex output>|<hex generated document>|<parse back: ok<n tests>/err/panic>|<1 = same shell expression>|<validate of the parsed test against the same output: ok/code/output>   J <m|c> <escaping - ascii unicode> <hex command> <exit code> <hex output> <hex title>|<hex of the document scrut create wrote>|create=<exit> test=<exit of scrut test on it> leftover=<entries left in TMPDIR>',
